@@ -1437,7 +1437,16 @@ pub fn generate(choices: &[u16], cfg: GenCfg) -> Generated {
             g.new_proc(&m, 2);
         }
     }
-    let main = g.gen_block(&mut m, 0, 0, len);
+    let mut main = g.gen_block(&mut m, 0, 0, len);
+    // nested repeats can leave tens of thousands of items on the stack; more than 65535 cannot be
+    // returned as stack outputs (the VM stops with an error the instruction reference does not
+    // describe): such programs are left to C05's directed probe and replaced here
+    if m.final_stack().len() > 60_000 {
+        g.excluded += 1;
+        g.classes.insert("excluded:final-depth>60000");
+        main = vec![Node::I(Ins::new(Op::Push, None, "push.1")), Node::I(Ins::new(Op::Drop, None, "drop"))];
+        main[0] = Node::I(Ins { op: Op::Push, imm: None, vals: vec![1], txt: "push.1".into() });
+    }
     g.prog.main = main;
     // procedures were registered in creation order; a procedure created while generating another
     // one's body has a higher index but must be defined earlier: order by dependency
